@@ -673,7 +673,7 @@ fn execute(world: &World, prog: &Program) -> Ex {
     st.reverse();
     let host = QuietHost::new(DefaultHost::new(MemAdviceProvider::default()));
     match catch(|| {
-        let mut process = Process::new(prog.kernel().clone(), StackInputs::new(st), host, ExecutionOptions::default());
+        let mut process = Process::new(prog.kernel().clone(), StackInputs::new(st), host, crate::case::bounded_opts());
         process.execute(prog)
     }) {
         Ok(Ok(o)) => Ex::Ok(o.stack().to_vec()),
